@@ -80,6 +80,13 @@ func (c *Config) Merge(from interface{}, options ...Option) error {
 	if err != nil {
 		return err
 	}
+	if other.fields != c.fields &&
+		(c.contains(other, map[*Config]bool{}) || other.contains(c, map[*Config]bool{})) {
+		// from is a part of the tree c belongs to (a section merged into its
+		// parent, a parent into one of its sections): merging into c changes
+		// from while it is read. Merge from a copy of what from holds now.
+		other = cfgSub{other}.cpy(context{}).(cfgSub).c
+	}
 	return mergeConfig(opts, c, other)
 }
 
